@@ -124,6 +124,17 @@ def split_chain(value):
             ops.insert(0, make_op(v[2], enc, err))
             v = v[1]
             continue
+        # codecs.escape_decode(b)[0] / `text, _ = codecs.escape_decode(b)`: the bytes-literal escape processor (bytes -> bytes)
+        inner = v[1] if (v[0] == 'unpack' and v[2] == '0') or (v[0] == 'sub' and v[2] == ('const', 0)) else None
+        while inner is not None and inner[0] == 'res':
+            inner = inner[3]
+        if inner is not None and inner[0] == 'mcall' and inner[1] == ('name', 'codecs') and inner[2] in ('escape_decode', 'escape_encode') and inner[3]:
+            err = codec_name(inner[3][1], 'codecs.' + inner[2] + ' error handler') if len(inner[3]) > 1 else 'strict'
+            if err not in MODELLED_ERRORS:
+                raise AnalysisError('error handler {!r} is outside the codec-chain model'.format(err))
+            ops.insert(0, ('bytes-' + inner[2], 'bytes-literal-escapes', err, inner[2]))
+            v = inner[3][0]
+            continue
         if v[0] == 'call' and v[1] in ('bytes', 'str') and (len(v[2]) >= 2 or (len(v[2]) == 1 and 'encoding' in dict(v[3]))):
             enc, err = _args(v[2][1:], v[3], v[1] + '(x, codec)')
             ops.insert(0, make_op('encode' if v[1] == 'bytes' else 'decode', enc, err))
@@ -134,13 +145,18 @@ def split_chain(value):
 
 
 def describe(ops):
-    return ''.join('.{}({!r}{})'.format(k, enc, '' if err == 'strict' else ', ' + repr(err)) for k, _, err, enc in ops) or '(no conversion)'
+    return ''.join(('.{}({!r}{})'.format(k, enc, '' if err == 'strict' else ', ' + repr(err)) if not k.startswith('bytes-') else ' -> codecs.{}() -> '.format(enc))
+                   for k, _, err, enc in ops) or '(no conversion)'
 
 
 def well_typed(ops, start):
     """Type ('str' | 'bytes') of the result of applying ops to a value of type `start`, or None when an op is applied to the wrong type."""
     t = start
     for k, _, _, _ in ops:
+        if k.startswith('bytes-'):
+            if t != 'bytes':
+                return None
+            continue
         if (k == 'encode') != (t == 'str'):
             return None
         t = 'bytes' if k == 'encode' else 'str'
@@ -152,7 +168,12 @@ def run(ops, value):
     cur = value
     for k, norm, err, _ in ops:
         try:
-            cur = codecs.encode(cur, norm, err) if k == 'encode' else codecs.decode(cur, norm, err)
+            if k == 'bytes-escape_decode':
+                cur = codecs.escape_decode(cur, err)[0]
+            elif k == 'bytes-escape_encode':
+                cur = codecs.escape_encode(cur, err)[0]
+            else:
+                cur = codecs.encode(cur, norm, err) if k == 'encode' else codecs.decode(cur, norm, err)
         except (UnicodeError, ValueError) as e:
             return 'error', type(e).__name__
     return 'ok', cur
